@@ -288,6 +288,14 @@ def run_shard(pid, tier, seed, shard, nshards, out):
     if getattr(mod, 'SESSION_NOISE', False):
         session_noise(ctx.rng)
         ctx.count('shards_started_after_unrelated_session_activity')
+    if getattr(mod, 'STRICT_WARNINGS', True) and shard % 4 == 2:
+        # the caller's warnings policy is the caller's: a quarter of the shards run the whole workload in a session that turns the
+        # warning categories a library itself issues (deprecation, future, user warnings) into errors. Numerical RuntimeWarnings
+        # stay as they are (numpy / scipy issue them on legitimate degenerate data).
+        import warnings
+        for cat in (DeprecationWarning, PendingDeprecationWarning, FutureWarning, UserWarning):
+            warnings.filterwarnings('error', category=cat)
+        ctx.count('shards_with_warnings_as_errors')
     try:
         mod.run_shard(ctx)
     except WatchdogTimeout:
